@@ -341,6 +341,133 @@ def rule_undefined_labels(chk, prog, tier):
     r.exhaustive = True
 
 
+# ------------------------------------------------------------------ C03.j the printer
+
+def rule_printer(chk, prog, tier):
+    r = chk.rule('C03.j', 'emitfunc prints exactly the function it is given, in QBE syntax: signature (export, return class or aggregate type, parameter classes/types, ...), one label per block, phi, every instruction with its result, class, mnemonic and operands in order, call argument lists with the variadic marker in place, and the terminator of every block',
+                 floor=6, oracle='QBE IL reference: function definitions, instructions, jumps, phi')
+    import re
+    from props import c07
+    fn = prog.require_func('emitfunc', 'qbe.c')
+    names = cmodel.instnames(prog)
+    iname = prog.gvar('instname', 'qbe.c')
+    def toks(text):
+        out = []
+        for line in text.split('\n'):
+            out += re.findall(r'[%$@:][A-Za-z0-9_.]+|[sd]_[-+0-9a-zA-Z.]+|[A-Za-z_][A-Za-z0-9_]*|\d+|\.\.\.|[=(){},]', line) + ['<nl>']
+        while out and out[-1] == '<nl>': out.pop()
+        return out
+    variants = [dict(ret='int', vararg=0, export=1, nparams=2), dict(ret='void', vararg=1, export=0, nparams=1), dict(ret='struct', vararg=0, export=1, nparams=3), dict(ret='long', vararg=1, export=1, nparams=0),
+                dict(ret='double', vararg=0, export=0, nparams=2), dict(ret='int', vararg=0, export=1, nparams=1, main=1)]
+    for vi, var in enumerate(variants):
+        expect = []
+        def runner(it):
+            del expect[:]
+            w = World(prog, it=it, target='x86_64-sysv')
+            def S(x): return Ptr(it.mkstr(list(x.encode()), x), (0,))
+            def V(kind, name=None, id_=0, thread=False):
+                o = Obj('value', 'heap'); o.f.update({('kind',): ev(prog, kind) | (ev(prog, 'VALUE_THREAD') if thread else 0), ('id',): id_, ('u', 'name'): S(name) if name else None}); return Ptr(o, ())
+            def const(n):
+                o = Obj('value', 'heap'); o.f.update({('kind',): ev(prog, 'VALUE_INTCONST'), ('id',): 0, ('u', 'i'): n}); return Ptr(o, ())
+            def fconst(kind, x):
+                o = Obj('value', 'heap'); o.f.update({('kind',): ev(prog, kind), ('id',): 0, ('u', 'f'): x}); return Ptr(o, ())
+            def inst(kind, cls, a0, a1, resid):
+                o = Obj('inst', 'heap'); o.f.update({('kind',): ev(prog, kind), ('class',): cls, ('arg', 0): a0, ('arg', 1): a1, ('res', 'kind'): ev(prog, 'VALUE_TEMP') if resid else 0, ('res', 'id'): resid, ('res', 'u', 'name'): None})
+                return Ptr(o, ())
+            def block(name, id_, insts, jump):
+                o = Obj('block:' + name, 'heap')
+                o.f.update({('label', 'kind'): ev(prog, 'VALUE_LABEL'), ('label', 'u', 'name'): S(name), ('label', 'id'): id_, ('jump', 'kind'): 0, ('phi', 'res', 'kind'): 0, ('next',): None})
+                arr = Obj('instarr', 'heap'); arr.elemsize = 8
+                for k, i_ in enumerate(insts): arr.f[(k,)] = i_
+                o.f[('insts', 'val')] = Ptr(arr, (0,)) if insts else None; o.f[('insts', 'len')] = 8 * len(insts)
+                return o
+            stype = w.mkstruct(size=12, align=4); stype.obj.f[('value',)] = V('VALUE_TYPE', 's', 7)
+            T = {'int': w.t('int'), 'long': w.t('long'), 'double': w.t('double'), 'void': w.t('void'), 'struct': stype, 'char': w.t('char')}
+            ptypes = ['int', 'struct', 'long'][:var['nparams']]
+            ft = it.call('mktype', [ev(prog, 'TYPEFUNC'), 0]); ft.obj.f.update({('base',): T[var['ret']], ('u', 'func', 'isvararg'): var['vararg'], ('u', 'func', 'nparam'): len(ptypes)})
+            prev = None; first = None
+            for pn in ptypes:
+                pd = Obj('paramdecl', 'heap'); pd.f.update({('type',): T[pn], ('next',): None, ('name',): None})
+                if prev is None: first = Ptr(pd, ())
+                else: prev.f[('next',)] = Ptr(pd, ())
+                prev = pd
+            ft.obj.f[('u', 'func', 'params')] = first
+            pt = Obj('paramtemps', 'heap')
+            for k in range(len(ptypes)): pt.f.update({(k, 'kind'): ev(prog, 'VALUE_TEMP'), (k, 'id'): k + 1, (k, 'u', 'name'): None})
+            t1 = Ptr(pt, (0,)) if ptypes else const(1)
+            g = V('VALUE_GLOBAL', 'gv'); sl = V('VALUE_GLOBAL', 'string', 3); tg = V('VALUE_GLOBAL', 'tls', 0, thread=True); callee = V('VALUE_GLOBAL', 'callee')
+            i_add = inst('IADD', ord('w'), t1, const(5), 10)
+            i_ld = inst('ILOADL', ord('l'), g, None, 11)
+            i_st = inst('ISTOREW', 0, Ptr(i_add.obj, ('res',)), sl, 0)
+            i_neg = inst('INEG', ord('d'), fconst('VALUE_DBLCONST', 1.5), None, 12)
+            i_flt = inst('IADD', ord('s'), fconst('VALUE_FLTCONST', 0.25), fconst('VALUE_FLTCONST', 2.0), 13)
+            i_tls = inst('ILOADW', ord('w'), tg, None, 14)
+            i_call = inst('ICALL', ord('w'), callee, None, 15)
+            i_a1 = inst('IARG', ord('w'), Ptr(i_add.obj, ('res',)), None, 0)
+            i_a2 = inst('IARG', ord('l'), Ptr(i_ld.obj, ('res',)), stype.obj.f[('value',)], 0)
+            i_va = inst('IVARARG', 0, None, None, 0)
+            i_a3 = inst('IARG', ord('d'), Ptr(i_neg.obj, ('res',)), None, 0)
+            i_call2 = inst('ICALL', 0, callee, None, 0)
+            i_call3 = inst('ICALL', ord('l'), Ptr(i_ld.obj, ('res',)), stype.obj.f[('value',)], 16)
+            i_va2 = inst('IVARARG', 0, None, None, 0)
+            b1 = block('start', 1, [i_add, i_ld, i_st, i_neg, i_flt, i_tls, i_call, i_a1, i_a2, i_va, i_a3, i_call2, i_call3, i_va2], None)
+            b2 = block('then', 2, [], None); b3 = block('else', 3, [inst('ICOPY', ord('w'), const(7), None, 17)], None); b4 = block('join', 4, [], None); b5 = block('dead', 5, [], None)
+            b1.f[('next',)] = Ptr(b2, ()); b2.f[('next',)] = Ptr(b3, ()); b3.f[('next',)] = Ptr(b4, ()); b4.f[('next',)] = Ptr(b5, ())
+            J = {k: ev(prog, k) for k in ('JUMP_NONE', 'JUMP_JMP', 'JUMP_JNZ', 'JUMP_RET', 'JUMP_HLT')}
+            b1.f.update({('jump', 'kind'): J['JUMP_JNZ'], ('jump', 'arg'): Ptr(i_tls.obj, ('res',)), ('jump', 'blk', 0): Ptr(b2, ()), ('jump', 'blk', 1): Ptr(b3, ())})
+            b2.f.update({('jump', 'kind'): J['JUMP_JMP'], ('jump', 'blk', 0): Ptr(b4, ())})
+            b4.f.update({('phi', 'res', 'kind'): ev(prog, 'VALUE_TEMP'), ('phi', 'res', 'id'): 20, ('phi', 'res', 'u', 'name'): None, ('phi', 'class'): ord('w'), ('phi', 'blk', 0): Ptr(b2, ()), ('phi', 'blk', 1): Ptr(b3, ()),
+                         ('phi', 'val', 0): const(1), ('phi', 'val', 1): Ptr(b3.f[('insts', 'val')].obj.f[(0,)].obj, ('res',))})
+            last = b5
+            if var.get('main'):
+                b4.f[('next',)] = None; last = b4          # falls off the end of main: `ret 0` is supplied
+            else:
+                b4.f.update({('jump', 'kind'): J['JUMP_RET'], ('jump', 'arg'): None if var['ret'] == 'void' else Ptr(b4, ('phi', 'res'))})
+                b5.f.update({('jump', 'kind'): J['JUMP_HLT']})
+            f = Obj('func', 'heap')
+            d = Obj('decl', 'heap'); d.f[('value',)] = V('VALUE_GLOBAL', 'main' if var.get('main') else 'fn')
+            f.f.update({('start',): Ptr(b1, ()), ('end',): Ptr(last, ()), ('name',): S('main' if var.get('main') else 'fn'), ('type',): ft, ('decl',): Ptr(d, ()), ('paramtemps',): Ptr(pt, (0,))})
+            M = c07.out_models(); del M['emitname']
+            it.models.update(M)
+            it.models['xmalloc'] = lambda i2, a, e: Ptr(Obj('heap@%s' % e.get('line'), 'heap'), ())
+            it.call(fn, [Ptr(f, ()), var['export']])
+            return ''.join(e_[1] for e_ in it.events if e_[0] == 'text')
+        runs = explore(prog, runner, {}, max_runs=4, on_unsupported='keep')
+        if len(runs) != 1 or runs[0].outcome != 'return':
+            raise AnalysisBroken('emitfunc variant %d: %s %s' % (vi, runs[0].outcome if runs else '?', runs[0].detail if runs else ''))
+        text_ = runs[0].value
+        # reference text, written from the QBE IL reference
+        CL = {'int': 'w', 'long': 'l', 'double': 'd', 'struct': ':s.7'}
+        nm = 'main' if var.get('main') else 'fn'
+        ptypes = ['int', 'struct', 'long'][:var['nparams']]
+        params = ', '.join('%s %%.%d' % (CL[p], k + 1) for k, p in enumerate(ptypes))
+        if var['vararg']: params = params + ', ...' if params else '...'
+        t1 = '%.1' if ptypes else '1'
+        lines = (['export'] if var['export'] else []) + ['function %s$%s(%s) {' % ((CL[var['ret']] + ' ') if var['ret'] != 'void' else '', nm, params), '@start.1',
+                 '\t%%.10 =w add %s, 5' % t1, '\t%.11 =l loadl $gv', '\tstorew %.10, $.Lstring.3', '\t%.12 =d neg d_1.5', '\t%.13 =s add s_0.25, s_2', '\t%.14 =w loadw thread $tls',
+                 '\t%.15 =w call $callee(w %.10, :s.7 %.11, ..., d %.12)', '\tcall $callee()', '\t%.16 =:s.7 call %.11(...)', '\tjnz %.14, @then.2, @else.3', '@then.2', '\tjmp @join.4', '@else.3', '\t%.17 =w copy 7',
+                 '@join.4', '\t%.20 =w phi @then.2 1, @else.3 %.17']
+        if var.get('main'): lines += ['\tret 0']
+        else: lines += ['\tret' + ('' if var['ret'] == 'void' else ' %.20'), '@dead.5', '\thlt']
+        lines += ['}']
+        want = toks('\n'.join(lines))
+        got = toks(text_)
+        # floating constants: compare by value
+        def norm(t): 
+            m = re.match(r'^([sd])_(.*)$', t)
+            if m:
+                try: return (m.group(1), float(m.group(2)))
+                except ValueError: return t
+            return t
+        ok = [norm(t) for t in got] == [norm(t) for t in want]
+        det = ''
+        if not ok:
+            k = next((j for j, (a, b) in enumerate(zip(got, want)) if norm(a) != norm(b)), min(len(got), len(want)))
+            det = 'first difference at token %d: printed `%s`, the function says `%s`' % (k, ' '.join(got[max(0, k - 4):k + 4]), ' '.join(want[max(0, k - 4):k + 4]))
+        r.instance(ok, 'printer:variant%d(ret=%s,params=%d%s%s%s)' % (vi, var['ret'], var['nparams'], ',vararg' if var['vararg'] else '', ',export' if var['export'] else '', ',main' if var.get('main') else ''), 'qbe.c:%s' % fn.get('line'), det)
+    r.exhaustive = False
+
+
 def run(chk, tier):
     prog = facts.programs()['cproc-qbe']
     chk.guard('C03.a', lambda: rule_terminators(chk, prog, tier))
@@ -350,3 +477,4 @@ def run(chk, tier):
     chk.guard('C03.f', lambda: rule_streams(chk, prog, tier))
     chk.guard('C03.e', lambda: c19.rule_flush(chk, prog, tier))
     chk.guard('C03.i', lambda: rule_undefined_labels(chk, prog, tier))
+    chk.guard('C03.j', lambda: rule_printer(chk, prog, tier))
